@@ -804,7 +804,6 @@ Require Verif.Tie.Loops.Nuget.
 Require Verif.Tie.Loops.Pypi.
 Require Verif.Tie.Loops.Rpm.
 Require Verif.Tie.Loops.Semver.
-Require Verif.Tie.Parse.Conan.
 Definition C07_tie_alpine_compareInt := Verif.Tie.Alpine.tie_alpine_compareInt.
 Print Assumptions C07_tie_alpine_compareInt.
 Definition C07_tie_alpine_Version_String := Verif.Tie.Alpine.tie_alpine_Version_String.
@@ -1063,8 +1062,4 @@ Definition C07_tie_loops_semver_comparePrerelease := Verif.Tie.Loops.Semver.tie_
 Print Assumptions C07_tie_loops_semver_comparePrerelease.
 Definition C07_tie_semver_compare_closed := Verif.Tie.Loops.Semver.tie_semver_compare_closed.
 Print Assumptions C07_tie_semver_compare_closed.
-Definition C07_tie_newversion_matched := Verif.Tie.Parse.Conan.newversion_matched.
-Print Assumptions C07_tie_newversion_matched.
-Definition C07_tie_newversion_unmatched := Verif.Tie.Parse.Conan.newversion_unmatched.
-Print Assumptions C07_tie_newversion_unmatched.
 (* ====== ties to the source: END ====== *)
